@@ -1,7 +1,7 @@
 #!/bin/sh
 # tools/try_full.sh <patch.diff> <Cxx> [more Cxx...]: the complete quick check (deductive part, inline cross-check, harness) against a scratch copy of /repo/src with the patch applied
 P=$1; shift
-D=$(mktemp -d /tmp/tryf_XXXX); cp -r /repo/src $D/src; patch -p1 -s -d $D -i $P || { echo patch failed; rm -rf $D; exit 2; }
+D=$(mktemp -d /tmp/tryf_XXXX); git -C /repo archive HEAD src | tar -x -C $D; patch -p1 -s -d $D -i $P || { echo patch failed; rm -rf $D; exit 2; }
 echo "$@" | tr ' ' '\n' | xargs -P 4 -I{} sh -c 'out=$(MDPAX_SRC='$D'/src VERIF_OUT_DIR='$D'/out_{} /verif/bin/check {} 2>&1); rc=$?; echo "== {} rc=$rc"; echo "$out" | grep -v "^KNOWN-FINDING" | tail -4 | cut -c1-500; for f in $(echo "$out" | grep -o "replay=[^ ]*" | cut -d= -f2 | head -3); do python3 -c "
 import json,sys; r=json.load(open(\"$f\")); print(\"   \", r.get(\"obligation\") or r.get(\"check\"), \"|\", r.get(\"verdict\"), \"|\", str(r.get(\"concrete_input\") or r.get(\"input\"))[:200], \"|\", str(r.get(\"solver_detail\") or r.get(\"what\"))[:200])"; done'
 rm -rf $D
